@@ -1878,10 +1878,16 @@ class Run:
         o = e["obj"]
         names = self.U["scal"][e["cls"]]
         was = {an: OS.loaded(o, an) for an in names}
-        hist = self.m["inspect"](o).attrs
+        st_ = self.m["inspect"](o)
+        hist = st_.attrs
+        absent = set()
         for an in names:
             if not was[an][0] and hist[an].history.has_changes():
                 was[an] = (True, None)       # removed with 'del obj.attr': a pending change whose value is None, not an expired attribute
+            elif not was[an][0] and not st_.expired and an not in st_.expired_attributes and an != "memo":
+                # neither loaded nor expired nor deferred: an attribute removed with 'del' whose NULL has been flushed; it reads None
+                # from memory until something expires it - not a claim of C46
+                absent.add(an)
         if not self.cfg.get("autoflush", True) and (self.session.new or self.session.dirty or self.session.deleted) and \
                 not all(w[0] for w in was.values()):
             pass        # a load without autoflush: the row the transaction sees is still the right answer for unloaded attributes
@@ -1904,6 +1910,8 @@ class Run:
                     self.V("C46", "loaded_value_changed_by_read", "%s #%s.%s was loaded as %r and reads %r" % (e["cls"], pk, an, was[an][1], got[an]))
                 continue
             dbv = now["a2"][pk][1] if an == "extra" else row[cols.index(an)]
+            if an in absent:
+                continue
             if got[an] != dbv:
                 self.V("C46", "expired_attribute_read_stale", "%s #%s.%s was expired and reads %r while the database has %r"
                        % (e["cls"], pk, an, got[an], dbv))
